@@ -139,7 +139,7 @@ CHECKS += [
     dict(property_id="C09", category="exploration",
          text="Histories in the cluster simulation with the real daemons: the operator files a full or light maintenance request (semi-sync disabled on entry or not), racing with a switch request or a crash; the judged window opens the instant the manager acknowledges (other processes may not have noticed) and closes when should_leave is set. In between a generated sequence of loop bodies, full rounds, mysync kills and restarts, ZooKeeper outages and per-host cuts, mysqld crashes and starts, manual topology changes (moving the master, creating a second master, stopping threads), switch and forced-failover requests, client writes and time jumps. FULL mode: every statement from a mysync process is judged by its effect on the server's settings/replication configuration (a no-op SET is not a change), and every write to master/active_nodes by a mysync client is a violation. LIGHT mode: no failover request filed by mysync, no promotion under a pending failover request. LEAVE: the request is deleted only with exactly one alive master in ground truth, recorded master = that server, active list non-empty; several masters seen by the leaving process => emergency file. One defect found is recorded as a known finding.",
          design_ref="DESIGN.md section 4, C09",
-         note="Trusted: loop bodies run one at a time; 'alive master' is the fake servers' ground truth of what getMasterHost counts (up, no replication channel). Not covered: that planned switchovers and repairs still make progress in light mode (only the absence of failover is judged).",
+         note="Trusted: loop bodies run one at a time; 'alive master' is the fake servers' ground truth of what getMasterHost counts (up, no replication channel). That planned switchovers and repairs still make progress in light mode is judged by a second unit (TestVerifC09Light) as bounded progress in fault-free histories on a converged cluster.",
          technique="stateful property-based testing over the cluster simulation: generated histories with fault and operator actions, effect-based statement invariant and coordination-store history invariant inside the acknowledged window, ground-truth validity predicate at the leave instant"),
 ]
 
